@@ -131,6 +131,10 @@ func runCase(c *core.Ctx, i int) {
 		interleaveCase(c, rng)
 		return
 	}
+	if i%27 == 4 {
+		whereCase(c, rng)
+		return
+	}
 	switch x := rng.Intn(100); {
 	case x < 52:
 		layoutCase(c, rng, false)
